@@ -21,6 +21,9 @@ def generate(rng):
     scn.pop('sched', None)
     scn.pop('delayafterread', None)
     scn['use_poll'] = rng.random() < 0.3
+    scn.pop('many_fds', None)
+    if scn['use_poll'] and rng.random() < 0.3:
+        scn['many_fds'] = True
     if scn['transport'] == 'pty':
         scn['eof_flavour'] = rng.choice(['eio', 'eio', 'empty'])
     ops = []
